@@ -1353,7 +1353,7 @@ namespace xsimd
                     batch_type x = select(inf_result, constants::nan<batch_type>(), a);
                     batch_type q = abs(x);
 #ifndef XSIMD_NO_INFINITIES
-                    inf_result = (q == constants::infinity<batch_type>());
+                    inf_result = (q == constants::infinity<batch_type>()) || inf_result;
 #endif
                     auto test = (a < batch_type(-34.));
                     batch_type r = constants::nan<batch_type>();
@@ -1361,7 +1361,7 @@ namespace xsimd
                     {
                         r = large_negative(q);
                         if (all(test))
-                            return select(inf_result, constants::nan<batch_type>(), r);
+                            return select(a == constants::minusinfinity<batch_type>(), constants::nan<batch_type>(), select(inf_result, constants::infinity<batch_type>(), r));
                     }
                     batch_type r1 = other(a);
                     batch_type r2 = select(test, r, r1);
